@@ -426,6 +426,56 @@ def tls_identity(rep, ut):
     return n
 
 
+def drain_rule(rep, us):
+    """tpt_msg_send() accepts a message (returns 0) while the destination's state is RUNNING; the destination leaves
+    tpt_loop() as soon as the stop message has made its state something else, and nothing reads the pipe afterwards.  A
+    message written after the batch that carried the stop message was accepted and never runs.  Between the return of
+    tpt_loop() and the final state store the thread procedure must call something that reaches the queue reader."""
+    from props import c11
+    utp, um = us[tp.TP_C], us[tp.MSG_C]
+    g = c11.call_graph([utp, um])
+    fn = tp.need(utp, "tp_thread_proc")
+    rep.functions.add(fn.name)
+    loops = [pos for pos, root, c, ps in fn.calls({"tpt_loop"})]
+    if len(loops) != 1:
+        raise driver.AnalysisBroken("tp_thread_proc: tpt_loop call sites: %d" % len(loops))
+    readers = {f for f in g if "tpt_msg_recv_and_process" in c11.reach(g, f)}
+    drains = [pos for pos, root, c, ps in fn.calls() if c.get("fn") in readers and fn.pos_dominates(loops[0], pos) and pos != loops[0]]
+    exits = [pos for pos, r in fn.returns() if fn.pos_dominates(loops[0], pos)]
+    ok = bool(drains) and bool(exits) and all(any(fn.pos_dominates(d_, e_) for d_ in drains) for e_ in exits)
+    desc = "tp_thread_proc: after tpt_loop() has returned the thread's queue is read once more before the thread ends"
+    (rep.proved if ok else rep.violated)("R-DRAIN", fn, "drain-after-loop", desc, "call reaching tpt_msg_recv_and_process dominates the exit" if ok else
+                                         "nothing reads the queue after the loop: a message sent (result 0) after the stop message was queued - callback A "
+                                         "self-sends B and calls tp_shutdown(), B self-sends M - is never run", fn.blocks[loops[0][0]].elems[loops[0][1]].get("ln"))
+    return 1
+
+
+def rr_rule(rep, utp):
+    """tp_thread_get_rr() picks the destination of a message: with several callers the plain `idx++; if (max <= idx) idx = 0;
+    return &threads[idx]` re-reads the shared index after the test, and returns the virtual thread's slot or one behind the
+    array.  The index used in the subscript must be the result of one atomic operation, reduced by the thread count."""
+    fn = tp.need(utp, "tp_thread_get_rr")
+    rep.functions.add(fn.name)
+    n = 0
+    for pos, r in fn.returns():
+        e = r.get("e")
+        subs = [y for y, _ in walk(e)] if e is not None else []
+        subs = [y for y in subs if y.get("k") == "sub" and "threads" in key(y["b"])]
+        for sb in subs:
+            n += 1
+            idx = core.strip_casts(sb["i"])
+            atomic = any(y.get("k") == "call" and (y.get("fn") or "").startswith(("__sync_", "__atomic_")) for y, _ in walk(idx))
+            reduced = idx.get("k") == "bin" and idx["op"] == "%"
+            plain = any(y.get("k") == "mem" and y["f"] == "rr_idx" for y, _ in walk(idx)) and not atomic
+            desc = "tp_thread_get_rr: the slot index comes from one atomic step and is reduced modulo the thread count"
+            if atomic and reduced:
+                rep.proved("R-RACE", fn, "rr-index", desc, key(idx)[:70], r.get("ln"))
+            else:
+                rep.violated("R-RACE", fn, "rr-index", desc, "%s: with concurrent callers the index read for the subscript can be threads_max or above "
+                             "(the shared virtual thread, or memory behind the array)" % ("the shared rr_idx is re-read after the range test" if plain else key(idx)[:60]), r.get("ln"))
+    return n
+
+
 def run(rep, tier):
     us = tp.units((tp.MSG_C, tp.TP_C))
     rep.use_units(us)
@@ -444,6 +494,8 @@ def run(rep, tier):
     # "exactly once ... on the right thread" for the relayed (one-by-one) form: the walk serves the caller once and skips it -
     # and nobody else - on every hop (C10's finite-domain evaluation of the two guards)
     rep.floor("self-serving flag combinations", c10.self_once(rep, u), 4)
+    drain_rule(rep, us)
+    rep.floor("round-robin subscripts", rr_rule(rep, us[tp.TP_C]), 1)
     return driver.finish(
         rep, "other",
         "Static analysis of threadpool_msg_sys.c. Decided: all %d acyclic paths of tpt_msg_send fall into the seven "
